@@ -58,7 +58,7 @@ def step (st : St) (ws0 : List String) : St × String × String × String :=
         let spec := match txEngine st with
           | some t => (modelDump Cfg.current t).1
           | none => "-"
-        (st, full, spec, if bulkDupEdgeKey st.edges then "C30-parallel-edges-same-property-key" else "")
+        (st, full, spec, if !Generated.extendKeepsNewest && bulkDupEdgeKey st.edges then "C30-parallel-edges-same-property-key" else "")
       else (st, full, "-", "")
   | _ => (st, "bad-op", "-", "")
 
